@@ -189,7 +189,8 @@ void Search::go()
     // check if there is only one move to make
     if (_root_moves.size() == 1)
     {
-        _search_time = 500;
+        // think briefly, but never longer than the clock allows
+        _search_time = std::min<Duration>(_search_time, 500);
     }
     iter_search();
 
